@@ -224,6 +224,17 @@ def search(ctx, boost=1, focus=()):
             if k % 4 < 2:
                 shape = shape[::-1]
             pts = np.array([[int(rng.integers(ext, shape[0] - ext)), int(rng.integers(ext, shape[1] - ext))]])
+            if pat["kind"] == "rgbs" and k % 2:
+                # the pattern's own template array (2*ceil(outer radius) + 2 pixels, even) is one pixel LARGER than an odd frame
+                # axis: it is cropped, not padded; its support (outer radius + antialiasing) still fits with the disk in the middle
+                ro = float(np.ceil(pat["radius_outer"])) - float(rng.choice([0.0, 0.05, 0.3]))
+                pat = dict(pat, radius_outer=ro, search=max(pat["search"], ro + 1))
+                ax = int(rng.integers(2))
+                shape[ax] = 2 * int(np.ceil(ro)) + 1
+                shape[1 - ax] = max(shape[1 - ax], 2 * int(np.ceil(ro)) + 4)
+                pts = np.array([[shape[0] // 2, shape[1] // 2]])
+                pts[0, 1 - ax] = int(rng.integers(int(np.ceil(ro)) + 2, shape[1 - ax] - int(np.ceil(ro)) - 2 + 1))
+                ctx.count("template_larger_than_axis")
             ctx.count("large_disk")
         if len(pts) == 0:
             continue
@@ -255,6 +266,24 @@ def search(ctx, boost=1, focus=()):
         msgs_ = run_case("peaks", q)
         ctx.oracle_case("peaks", q, msgs_, key=classify("peaks", q, msgs_) if msgs_ else None,
                         nontrivial=(shape[0] % 2 == 1 or shape[1] % 2 == 1))
+    # large RadialGradientBackgroundSubtraction disks in frames one pixel smaller than the pattern's own template array along an
+    # odd axis (both orders of the axes, outer radius on / just below an integer): the template is cropped, not padded
+    for k in range(4 * boost):
+        ro_int = int(rng.integers(9, 21))
+        ro = ro_int - float(rng.choice([0.0, 0.05, 0.3]))
+        r = float(np.round(ro / rng.uniform(1.3, 1.6), 2))
+        pat = {"kind": "rgbs", "radius": r, "radius_outer": ro, "search": float(ro + 1 + int(rng.integers(0, 3)))}
+        ax = k % 2
+        shape = [0, 0]
+        shape[ax] = 2 * ro_int + 1
+        shape[1 - ax] = int(rng.integers(2 * ro_int + 4, 2 * ro_int + 40))
+        cen = [shape[0] // 2, shape[1] // 2]
+        cen[1 - ax] = int(rng.integers(ro_int + 2, shape[1 - ax] - ro_int - 1))
+        q = {"seed": int(rng.integers(1 << 30)), "pattern": pat, "shape": shape, "centres": [cen],
+             "amps": [float(rng.uniform(1, 100))], "bg": float(rng.uniform(0, 5)), "ks": [1]}
+        msgs_ = run_case("peaks", q)
+        ctx.oracle_case("peaks", q, msgs_, key=classify("peaks", q, msgs_) if msgs_ else None, nontrivial=True)
+        ctx.count("template_larger_than_axis")
         ctx.count("pattern_" + pat["kind"])
 
 
